@@ -83,40 +83,76 @@ def CertKind.isStakeKind : CertKind → Bool
   | .regDeleg | .regVoteDeleg | .regDelegVote => true
   | _ => false
 
-/-- one iteration of the loop in `_certificate_vkey_hashes` -/
+/-- `_check_and_add_vkey`: a credential contributes its hash iff it is a `VerificationKeyHash` -/
+def credKey (c : Cred) : List Bytes := if c.isKey then [c.hash] else []
+
+/-- the classes whose `drep_credential` is inspected (second `isinstance` tuple, commit e281a78) -/
+def CertKind.isDRepKind : CertKind → Bool
+  | .regDRep | .unregDRep | .updateDRep => true
+  | _ => false
+
+/-- the classes whose `committee_cold_credential` is inspected (third `isinstance` tuple, commit e281a78) -/
+def CertKind.isCommitteeKind : CertKind → Bool
+  | .authHot | .resignCold => true
+  | _ => false
+
+/-- one iteration of the loop in `_certificate_vkey_hashes` (repaired tree, commit e281a78) -/
 def certVkeys (c : Cert) : List Bytes :=
-  if c.kind.isStakeKind then (if c.cred.isKey then [c.cred.hash] else [])     -- _check_and_add_vkey(cert.stake_credential)
-  else if c.kind = .regDRep then (if c.cred.isKey then [c.cred.hash] else [])  -- _check_and_add_vkey(cert.drep_credential)
-  else if c.kind = .poolReg then [c.cred.hash]                                  -- results.add(cert.pool_params.operator)
-  else if c.kind = .poolRetire then [c.cred.hash]                               -- results.add(cert.pool_keyhash)
+  if c.kind.isStakeKind then credKey c.cred             -- _check_and_add_vkey(cert.stake_credential)
+  else if c.kind.isDRepKind then credKey c.cred         -- _check_and_add_vkey(cert.drep_credential)
+  else if c.kind.isCommitteeKind then credKey c.cred    -- _check_and_add_vkey(cert.committee_cold_credential)
+  else if c.kind = .poolReg then c.cred.hash :: c.owners -- results.add(operator); results.update(pool_owners)
+  else if c.kind = .poolRetire then [c.cred.hash]       -- results.add(cert.pool_keyhash)
   else []
 
-/-- what the property text asks for: the key credential of *every* certificate kind, and all pool owners -/
+/-- the loop as it was before commit e281a78: DRep deregistration / update, committee certificates and pool
+owners were not looked at -/
+def certVkeysPinned (c : Cert) : List Bytes :=
+  if c.kind.isStakeKind then credKey c.cred
+  else if c.kind = .regDRep then credKey c.cred
+  else if c.kind = .poolReg then [c.cred.hash]
+  else if c.kind = .poolRetire then [c.cred.hash]
+  else []
+
+/-- what the property text asks for ("certificate … credentials"), written without looking at the kind: the key
+credential of *every* certificate, and every owner of a pool registration -/
 def certVkeysFull (c : Cert) : List Bytes :=
-  (if c.cred.isKey then [c.cred.hash] else []) ++ c.owners
+  credKey c.cred ++ (if c.kind = .poolReg then c.owners else [])
 
 /-- `Address.from_primitive(k)` on a withdrawal key followed by `address_type == NONE_KEY`: header nibble 0b1110 -/
 def rewardKeyHash : Bytes → List Bytes
   | [] => []
   | h :: payload => if h.toNat / 16 = 14 then [payload] else []
 
-/-- the fields of the builder that witness collection reads (after `build`) -/
+/-- the fields of the builder that witness collection reads (after `build`).  Script lists hold the *native*
+scripts only (`isinstance(script, NativeScript)`); Plutus scripts contribute nothing -/
 structure State where
   inputs : List Cred                 -- `i.output.address.payment_part` of `self.inputs`
   collaterals : List Cred            -- … of `self.collaterals`
   requiredSigners : List Bytes       -- `self.required_signers` (None = [])
   nativeScripts : List NScript       -- `self.native_scripts` (None = [])
+  inputScripts : List NScript        -- `self._inputs_to_scripts.values()` (incl. scripts found on reference UTxOs)
+  mintScripts : List NScript         -- scripts of `self._minting_script_to_redeemers`
+  withdrawalScripts : List NScript   -- scripts of `self._withdrawal_script_to_redeemers`
+  certScripts : List NScript         -- scripts of `self._certificate_script_to_redeemers`
   certificates : List Cert           -- `self.certificates` (None = [])
   withdrawals : List Bytes           -- keys of `self.withdrawals` (reward account bytes)
   voters : List Cred                 -- `voter.credential` of the keys of `self.voting_procedures`
   witnessOverride : Option Nat       -- `self.witness_override`
 
+/-- the native members of `all_scripts`.  The property keeps one script per script hash; hash-equal scripts are
+equal scripts (no blake2b collision), so dropping repeats does not change the set of keys collected -/
+def allNativeScripts (st : State) : List NScript :=
+  st.nativeScripts ++ st.inputScripts ++ st.mintScripts ++ st.withdrawalScripts ++ st.certScripts
+
 def keyCreds (l : List Cred) : List Bytes := (l.filter (·.isKey)).map (·.hash)
 
 /-- `_input_vkey_hashes`: `for i in self.inputs + self.collaterals` -/
 def inputVkeys (st : State) : List Bytes := keyCreds (st.inputs ++ st.collaterals)
-/-- `_native_scripts_vkey_hashes` -/
-def nativeVkeys (st : State) : List Bytes := NScript.keysList st.nativeScripts
+/-- `_native_scripts_vkey_hashes` (repaired tree, commit 31135c8: `for script in self.all_scripts`) -/
+def nativeVkeys (st : State) : List Bytes := NScript.keysList (allNativeScripts st)
+/-- … as it was before commit 31135c8: `for script in self.native_scripts` -/
+def nativeVkeysPinned (st : State) : List Bytes := NScript.keysList st.nativeScripts
 /-- `_certificate_vkey_hashes` -/
 def certificateVkeys (st : State) : List Bytes := st.certificates.flatMap certVkeys
 /-- `_withdrawal_vkey_hashes` -/
